@@ -93,7 +93,7 @@ func c05Damaged(how string, nb, sb, pad, answer []byte) []byte {
 }
 
 var c05Arity = map[string]int{"c05.enc": 4, "c05.dec": 4, "c05.msgenc": 3, "c05.msgdec": 4, "c05.tkeys": 3, "c05.tenc": 6,
-	"c05.tnopad": 4, "c05.tdec": 5, "c05.tdecraw": 4, "c05.tdecbad": 6}
+	"c05.tnopad": 4, "c05.tdec": 5, "c05.tdecraw": 4, "c05.tdecbad": 6, "c05.mkey": 2, "c05.kdf": 4}
 
 // c05Prep parses one ordinary operation (once) and returns a function that runs it against the real code on
 // fresh private memory and returns the canonical result line of c05Exec1. The function may be called from
@@ -145,6 +145,30 @@ func c05Prep(op []string) func() string {
 				return c05ArgChanged
 			}
 			return c05Outcome(res, err, "")
+		}
+	case "c05.mkey":
+		msg := B(1)
+		f = func() string {
+			m := c05Dup(msg)
+			res := ige.MessageKey(m)
+			if !bytes.Equal(m, msg) {
+				return c05ArgChanged
+			}
+			return c05Outcome(res, nil, "")
+		}
+	case "c05.kdf":
+		mk, ak := B(1), B(2)
+		if op[3] != "0" && op[3] != "1" {
+			return bad
+		}
+		decode := op[3] == "1"
+		f = func() string {
+			k, a := c05Dup(mk), c05Dup(ak)
+			key, iv := ige.VerifGenerateAESIGE(k, a, decode)
+			if !bytes.Equal(k, mk) || !bytes.Equal(a, ak) {
+				return c05ArgChanged
+			}
+			return fmt.Sprintf("key=%s iv=%s", showBytes(key), showBytes(iv))
 		}
 	case "c05.tkeys":
 		nb, sb := B(1), B(2)
@@ -241,12 +265,20 @@ func c05Members(op []string) (head []string, members [][]string) {
 	return head, members
 }
 
-func c05IsBatch(op []string) bool { return len(op) > 0 && (op[0] == "c05.par" || op[0] == "c05.seq") }
+func c05IsBatch(op []string) bool {
+	return len(op) > 0 && (op[0] == "c05.par" || op[0] == "c05.seq" || op[0] == "c05.seqip")
+}
 
 func c05Batch(op []string) string {
 	head, members := c05Members(op)
 	if len(members) == 0 {
 		return "bad-op"
+	}
+	if op[0] == "c05.seqip" {
+		if len(head) != 1 {
+			return "bad-op"
+		}
+		return c05SeqInPlace(op, members)
 	}
 	runs := make([]func() string, len(members))
 	for i, m := range members {
@@ -310,6 +342,9 @@ func c05JudgeBatch(op []string, out string) string {
 	}
 	how := "run one after another on one goroutine, nothing in between"
 	want := len(members)
+	if op[0] == "c05.seqip" {
+		how = "run one after another on one goroutine, nothing in between, every argument in the SAME long-lived caller memory refilled in place from call to call (one array for the byte strings, two big.Ints for the nonces)"
+	}
 	if op[0] == "c05.par" {
 		how = fmt.Sprintf("run at the same time, one goroutine each (%s rounds of %s calls, all started together)", head[1], head[2])
 		want++
